@@ -26,7 +26,7 @@ func TestVerifRaceME(t *testing.T) {
 	budget := 400 * time.Millisecond
 	runs := int64(len(cfgs))
 	if env.Tier == "thorough" {
-		budget, runs = 1500*time.Millisecond, int64(len(cfgs))*4
+		budget, runs = 1500*time.Millisecond, int64(len(cfgs))*16
 	}
 	names := []string{"A", "B", "C", "D"}
 	// construction with a recovery timeout so short that the per-endpoint
